@@ -17,6 +17,7 @@ import (
 	"sort"
 	"strings"
 	"sync"
+	"sync/atomic"
 	"syscall"
 	"time"
 
@@ -365,7 +366,28 @@ func armHooks(spec string) {
 			fmt.Sscanf(act[i+1:], "%d", &a.Nth)
 			act = act[:i]
 		}
-		if strings.HasPrefix(act, "sleep(") {
+		if strings.HasPrefix(act, "rendezvous(") && strings.HasSuffix(act, ")") {
+			// first hit only: announce this process in the directory and wait (bounded) for a second process to arrive at
+			// the same point, so that both are between "closure evaluated" and "root committed" at the same time
+			d := act[len("rendezvous(") : len(act)-1]
+			var once atomic.Bool
+			a.Kind, a.Nth = "func", 0
+			a.Fn = func(string, int64) error {
+				if once.Swap(true) {
+					time.Sleep(2 * time.Millisecond)
+					return nil
+				}
+				os.WriteFile(filepath.Join(d, fmt.Sprintf("hit-%d", os.Getpid())), []byte("x"), 0o644)
+				for k := 0; k < 600; k++ {
+					if m, _ := filepath.Glob(filepath.Join(d, "hit-*")); len(m) >= 2 {
+						os.WriteFile(filepath.Join(d, fmt.Sprintf("met-%d", os.Getpid())), []byte("x"), 0o644)
+						return nil
+					}
+					time.Sleep(time.Millisecond)
+				}
+				return nil
+			}
+		} else if strings.HasPrefix(act, "sleep(") {
 			var ms float64
 			fmt.Sscanf(act, "sleep(%f)", &ms)
 			a.Kind, a.Sleep = "sleep", time.Duration(ms*float64(time.Millisecond))
